@@ -15,7 +15,8 @@ class Registry:
 
     def snap(self, c, with_boc):
         s = {'hash': c.hash, 'bits': c.bits.to01(), 'refs': tuple(id(x) for x in c.refs), 'ref_hashes': tuple(x.hash for x in c.refs),
-             'type': c.type_, 'mask': c.level_mask.mask, 'depth': c.get_depth(0)}
+             'type': c.type_, 'mask': c.level_mask.mask, 'depth': c.get_depth(0),
+             'levels': tuple((c.get_hash(l), c.get_depth(l)) for l in range(4)), 'repr_hash': mon.call(c.calculate_representation_hash)[0] == 'ok' and c.calculate_representation_hash()}
         if with_boc:
             s['boc'] = tuple(c.to_boc(*o) for o in OPTS)
         return s
@@ -294,7 +295,21 @@ def history(R, B, rng, n_ops, W):
         R.count('pure_reevaluations')
         R.check(again == first, f'pure-call-differs-{name.split("(")[0]}', f'{name} gives a different result at a later point of the history', {'trace': trace[-15:]})
 
-    ops = [('parse', op_parse, 2), ('begin_parse', op_begin_parse, 3), ('load', op_load, 6), ('to_builder', op_to_builder, 2), ('store', op_store, 6),
+    def op_public_recompute():
+        # public methods without arguments that recompute what the constructor computed: calling them again must change nothing
+        # (the registry compares hash, per-level hashes / depths and the recomputed representation hash afterwards)
+        if not reg.items:
+            return
+        c = rng.choice(list(reg.items.values()))[0]
+        which = rng.choice(['calculate_hashes', 'resolve_mask', 'get_descriptors', 'get_data_bytes', 'get_representation', 'calculate_representation_hash'])
+        R.count('public_recompute_calls')
+        R.count('public_recompute_' + which)
+        if which == 'get_descriptors':
+            c.get_descriptors(c.level_mask)
+        else:
+            getattr(c, which)()
+
+    ops = [('parse', op_parse, 2), ('public_recompute', op_public_recompute, 2), ('begin_parse', op_begin_parse, 3), ('load', op_load, 6), ('to_builder', op_to_builder, 2), ('store', op_store, 6),
            ('end_cell', op_end_cell, 3), ('copy', op_copy, 2), ('to_cell', op_to_cell, 2), ('to_boc', op_to_boc, 2), ('order', op_order, 3),
            ('hashmap', op_hashmap, 1), ('tlb', op_tlb, 1), ('mutate_derived', op_mutate_derived, 4), ('direct_plain', op_direct_plain, 1),
            ('recheck_pure', op_recheck_pure, 3)]
